@@ -95,6 +95,12 @@ class Run:
             cur['links'].append(list(m['link']))
         elif m['kind'] == 'remove_link':
             cur['links'] = [l for l in cur['links'] if l != list(m['link'])]
+        elif m['kind'] == 'reparent':
+            # Task.parent = p appends the task at the end of p's children (or of the WBS roots)
+            ent = [t for t in cur['tasks'] if t['name'] == m['task']][0]
+            cur['tasks'].remove(ent)
+            ent['parent'] = m.get('parent')
+            cur['tasks'].append(ent)
         elif m['kind'] == 'set_kw':
             for t in cur['tasks']:
                 if t['name'] == m['task']:
